@@ -8,9 +8,12 @@
      _next_date / _next_datetime, CalendarRule.__iter__ (used by for_each), and the
      keyword pass-through of Schedule.Functions.Event (with the hashability requirement
      that @memorable puts on its arguments outside for_each).
-   What is NOT modelled: the engine.  The occurrences it yields are an explicit input
-   (a stream), dateutil.parser.parse is an explicit function argument [P], datetime.now()
-   an explicit argument [now].
+   The engine: the occurrences it yields are an explicit input of [run] (a stream); for rules of
+   frequency yearly .. daily and rule sets in one zone the section "the recurrence engine" below
+   is an executable model of dateutil.rrule / rruleset ([rr_occ], [rs_occ]) that the correspondence
+   check compares with that stream ([engine_ok]).  dateutil.parser.parse is an explicit function
+   argument [P], datetime.now() an explicit argument [now].  The model has no state: a schedule's
+   outcome is a function of its own keywords ([CSession] checks every schedule of a history alone).
 
    Dates: [dt] = (proleptic ordinal of the local date, microsecond of the local day,
    utcoffset in seconds or None for a naive value).                                     *)
@@ -556,6 +559,22 @@ End Eval.
 Definition dt_eqb (a b : dt) : bool :=
   (d_days a =? d_days b) && (d_us a =? d_us b) && option_eqb Z.eqb (d_tz a) (d_tz b).
 
+(* the instant a value denotes, in microseconds (a naive value is read as UTC) *)
+Definition US_DAY : Z := 86400000000.
+Definition inst_us (x : dt) : Z :=
+  d_days x * US_DAY + d_us x - (match d_tz x with Some o => o | None => 0 end) * 1000000.
+
+(* `until` is compared as an INSTANT: the engine only ever compares it with occurrences
+   (theorem C15_until_only_instant), and the value Snowfakery hands over for a native datetime comes
+   out of the memo table of parse_datetimespec, whose keys compare equal across zones - its zone
+   depends on what was parsed earlier in the process, its instant does not. *)
+Definition until_eqb (a b : dt) : bool :=
+  match d_tz a, d_tz b with
+  | Some _, Some _ => inst_us a =? inst_us b
+  | None, None => dt_eqb a b
+  | _, _ => false
+  end.
+
 Definition scalar_eqb (a b : scalar) : bool :=
   match a, b with
   | SNone, SNone => true
@@ -580,7 +599,7 @@ Definition zl_eqb := option_eqb (list_eqb Z.eqb).
 Definition rrule_eqb (a b : rrule_args) : bool :=
   (r_freq a =? r_freq b) && dt_eqb (r_dtstart a) (r_dtstart b)
   && scalar_eqb (r_interval a) (r_interval b) && option_eqb wday_eqb (r_wkst a) (r_wkst b)
-  && scalar_eqb (r_count a) (r_count b) && option_eqb dt_eqb (r_until a) (r_until b)
+  && scalar_eqb (r_count a) (r_count b) && option_eqb until_eqb (r_until a) (r_until b)
   && zl_eqb (r_bysetpos a) (r_bysetpos b) && zl_eqb (r_bymonth a) (r_bymonth b)
   && zl_eqb (r_bymonthday a) (r_bymonthday b) && zl_eqb (r_byyearday a) (r_byyearday b)
   && zl_eqb (r_byeaster a) (r_byeaster b) && zl_eqb (r_byweekno a) (r_byweekno b)
@@ -613,6 +632,357 @@ Definition value_eqb (a b : value) : bool :=
   | _, _ => false
   end.
 
+(* ================================================================== the recurrence engine *)
+(* An executable model of what dateutil.rrule / rruleset yield, for the fragment
+     freq in YEARLY / MONTHLY / WEEKLY / DAILY, interval >= 1, count, until, bymonth, bymonthday
+     (positive and negative), byyearday (positive and negative), byweekday (plain and with ordinals),
+     byhour / byminute / bysecond (as a set of times per day), wkst; rule sets with rdate / exdate /
+     nested sets as rrule / exrule, all values in one zone offset.
+   Outside the fragment (hourly and finer, bysetpos, byweekno, byeaster, mixed zones, non-integer
+   interval / count) [rs_occ] answers None and nothing is claimed.
+   Dates are proleptic Gregorian ordinals (1 = 0001-01-01, datetime.date.toordinal); occurrences are
+   LOCAL microsecond stamps  day * 86400e6 + microsecond of the day  in the rule's zone.            *)
+
+(* ---- calendar arithmetic *)
+Definition is_leap (y : Z) : bool := ((y mod 4 =? 0) && negb (y mod 100 =? 0)) || (y mod 400 =? 0).
+Definition year_len (y : Z) : Z := if is_leap y then 366 else 365.
+Definition days_before_year (y : Z) : Z := 365 * (y - 1) + (y - 1) / 4 - (y - 1) / 100 + (y - 1) / 400.
+Definition month_len (y m : Z) : Z :=
+  if m =? 2 then (if is_leap y then 29 else 28)
+  else if (m =? 4) || (m =? 6) || (m =? 9) || (m =? 11) then 30 else 31.
+(* days of the year before the first of month m (1..13) *)
+Definition days_before_month (y m : Z) : Z :=
+  (367 * m - 362) / 12 - (if m <=? 2 then 0 else if is_leap y then 1 else 2).
+Definition days_from_civil (y m d : Z) : Z := days_before_year y + days_before_month y m + d.
+
+(* the year of ordinal n (datetime._ord2ymd: 400 / 100 / 4 / 1 year cycles) *)
+Definition year_of (n : Z) : Z :=
+  let n0 := n - 1 in
+  let n400 := n0 / 146097 in let r1 := n0 mod 146097 in
+  let n100 := r1 / 36524 in let r2 := r1 mod 36524 in
+  let n4 := r2 / 1461 in let r3 := r2 mod 1461 in
+  let n1 := r3 / 365 in
+  let y := 400 * n400 + 100 * n100 + 4 * n4 + n1 + 1 in
+  if (n1 =? 4) || (n100 =? 4) then y - 1 else y.
+
+(* the month in which day-of-year yd (1-based) of year y falls *)
+Definition month_of (y yd : Z) : Z :=
+  if yd <=? days_before_month y 2 then 1 else if yd <=? days_before_month y 3 then 2
+  else if yd <=? days_before_month y 4 then 3 else if yd <=? days_before_month y 5 then 4
+  else if yd <=? days_before_month y 6 then 5 else if yd <=? days_before_month y 7 then 6
+  else if yd <=? days_before_month y 8 then 7 else if yd <=? days_before_month y 9 then 8
+  else if yd <=? days_before_month y 10 then 9 else if yd <=? days_before_month y 11 then 10
+  else if yd <=? days_before_month y 12 then 11 else 12.
+
+Definition civil_from_days (n : Z) : Z * Z * Z :=
+  let y := year_of n in
+  let yd := n - days_before_year y in
+  let m := month_of y yd in
+  (y, m, yd - days_before_month y m).
+
+Definition weekday (n : Z) : Z := (n + 6) mod 7.        (* Monday = 0, as datetime.date.weekday *)
+
+(* ---- a rule in normal form *)
+Record rule := mkRule {
+  q_freq : Z;                    (* 0 YEARLY, 1 MONTHLY, 2 WEEKLY, 3 DAILY *)
+  q_d0 : Z;                      (* the day (ordinal) of dtstart *)
+  q_y0 : Z; q_m0 : Z;            (* its year and month *)
+  q_start : Z;                   (* stamp of dtstart (its microsecond dropped, as dateutil does) *)
+  q_interval : Z;
+  q_count : option Z;
+  q_until : option Z;            (* the largest admissible stamp: the INSTANT of until, in the rule's zone *)
+  q_wkst : Z;
+  q_bymonth : list Z;            (* [] = no restriction, for every by-list *)
+  q_mday_pos : list Z;
+  q_mday_neg : list Z;
+  q_yday : list Z;
+  q_wd : list Z;                 (* weekdays without ordinal *)
+  q_nwd : list (Z * Z);          (* (weekday, n): the n-th / n-th last such weekday of the month or year *)
+  q_times : list Z               (* seconds of the day, strictly increasing, each 0 <= t < 86400 *)
+}.
+
+Definition memz (x : Z) (l : list Z) : bool := existsb (Z.eqb x) l.
+Definition nonempty {A} (l : list A) : bool := match l with [] => false | _ => true end.
+
+Definition start_day (q : rule) : Z := q_d0 q.
+
+(* is day n the k-th (k > 0) / k-th last (k < 0) weekday w between first and last? *)
+Definition nth_ok (first last n : Z) (wk : Z * Z) : bool :=
+  let '(w, k) := wk in
+  (weekday n =? w) &&
+  (if 0 <? k then (n - first) / 7 =? k - 1 else (last - n) / 7 =? - k - 1).
+
+(* what the filters look at: (ordinal, month, day of month, day of year, length of the month,
+   length of the year) *)
+Definition dayinfo : Type := Z * Z * Z * Z * Z * Z.
+
+Definition info_of (n : Z) : dayinfo :=
+  let '(y, m, d) := civil_from_days n in
+  (n, m, d, n - days_before_year y, month_len y m, year_len y).
+
+(* the day-level filters: "each parameter restricts only the dimension it names".
+   (a &&& b is a && b, evaluated left to right and only as far as needed) *)
+Notation "a &&& b" := (if a then b else false) (at level 40, left associativity).
+
+Definition day_ok (q : rule) (i : dayinfo) : bool :=
+  let '(n, m, d, yd, mlen, ylen) := i in
+  (match q_bymonth q with [] => true | l => memz m l end) &&&
+  (match q_mday_pos q, q_mday_neg q with
+   | [], [] => true
+   | p, g => if memz d p then true else memz (d - mlen - 1) g
+   end) &&&
+  (match q_yday q with [] => true | l => if memz yd l then true else memz (yd - ylen - 1) l end) &&&
+  (match q_wd q with [] => true | l => memz (weekday n) l end) &&&
+  (match q_nwd q with
+   | [] => true
+   | l => if (q_freq q =? 1) || nonempty (q_bymonth q)
+          then existsb (nth_ok (n - d + 1) (n - d + mlen) n) l           (* within the month *)
+          else existsb (nth_ok (n - yd + 1) (n - yd + ylen) n) l         (* within the year *)
+   end).
+
+(* (year, month) of the rule's start *)
+Definition start_ym (q : rule) : Z * Z := (q_y0 q, q_m0 q).
+
+(* the k-th period of the rule: the days lo <= n < hi *)
+Definition period (q : rule) (k : Z) : Z * Z :=
+  if q_freq q =? 0 then
+    let y := fst (start_ym q) + k * q_interval q in (days_from_civil y 1 1, days_from_civil (y + 1) 1 1)
+  else if q_freq q =? 1 then
+    let mi := 12 * fst (start_ym q) + (snd (start_ym q) - 1) + k * q_interval q in
+    let y := mi / 12 in let m := mi mod 12 + 1 in
+    (days_from_civil y m 1, days_from_civil y m 1 + month_len y m)
+  else if q_freq q =? 2 then
+    let d0 := start_day q in
+    let s := d0 - (weekday d0 - q_wkst q) mod 7 in
+    (s + 7 * q_interval q * k, s + 7 * q_interval q * k + 7)
+  else (start_day q + q_interval q * k, start_day q + q_interval q * k + 1).
+
+Definition zrange (lo len : Z) : list Z := map (fun i => lo + Z.of_nat i) (seq 0 (Z.to_nat len)).
+
+(* the days of month m of year y with what the filters need - the same as [map info_of] over the
+   month's ordinals (lemma month_days_spec), without a calendar conversion per day *)
+Definition month_days (y m : Z) : list dayinfo :=
+  let first := days_from_civil y m 1 in
+  let mlen := month_len y m in
+  let ylen := year_len y in
+  let before := days_before_month y m in
+  map (fun d => (first + d - 1, m, d, before + d, mlen, ylen)) (zrange 1 mlen).
+
+(* the days of period k, in order (= map info_of (zrange lo (hi - lo)), lemma period_days_spec) *)
+Definition period_days (q : rule) (k : Z) : list dayinfo :=
+  if q_freq q =? 0 then
+    let y := fst (start_ym q) + k * q_interval q in
+    flat_map (month_days y) [1; 2; 3; 4; 5; 6; 7; 8; 9; 10; 11; 12]
+  else if q_freq q =? 1 then
+    let mi := 12 * fst (start_ym q) + (snd (start_ym q) - 1) + k * q_interval q in
+    month_days (mi / 12) (mi mod 12 + 1)
+  else let '(lo, hi) := period q k in map info_of (zrange lo (hi - lo)).
+
+Definition stamp_ok (q : rule) (s : Z) : bool :=
+  (q_start q <=? s) && (match q_until q with Some u => s <=? u | None => true end).
+
+Definition day_stamps (q : rule) (i : dayinfo) : list Z :=
+  if day_ok q i then (let '(n, _, _, _, _, _) := i in map (fun t => n * US_DAY + t * 1000000) (q_times q)) else [].
+
+(* the occurrences that fall into period k, in order *)
+Definition chunk (q : rule) (k : Z) : list Z :=
+  filter (stamp_ok q) (flat_map (day_stamps q) (period_days q k)).
+
+(* Period after period from k on.  need = how many occurrences `count` still allows.
+   -> (occurrences, complete?): complete = the rule has no further occurrence at all; otherwise
+   (no count, no until) the list is exact for the days before the horizon H.
+   None = out of fuel (periods) or out of budget (days scanned; a day of a weekly or daily rule costs
+   a calendar conversion and counts four times): nothing is claimed. *)
+Fixpoint gen (q : rule) (H : Z) (fuel : nat) (budget : Z) (k : Z) (need : option Z)
+  : option (list Z * bool) :=
+  let lo := fst (period q k) in
+  if (match need with Some c => c <=? 0 | None => false end) then Some ([], true)
+  else if (match q_until q with Some u => u <? lo * US_DAY | None => false end) then Some ([], true)
+  else if (match q_until q, need with None, None => H <=? lo | _, _ => false end) then Some ([], false)
+  else match fuel with
+       | O => None
+       | S f =>
+         if budget <? 0 then None else
+         let c := chunk q k in
+         let t := match need with Some n => firstn (Z.to_nat n) c | None => c end in
+         match gen q H f (budget - (snd (period q k) - lo) * (if q_freq q <=? 1 then 1 else 4)) (k + 1)
+                   (option_map (fun n => n - Z.of_nat (List.length t)) need) with
+         | Some (l, b) => Some (t ++ l, b)
+         | None => None
+         end
+       end.
+
+Definition DAY_BUDGET : Z := 16000.
+
+(* ---- rrule(...) keyword arguments -> normal form (dateutil.rrule.rrule.__init__) *)
+Fixpoint insert_uniq (x : Z) (l : list Z) : list Z :=
+  match l with
+  | [] => [x]
+  | y :: r => if x <? y then x :: l else if x =? y then l else y :: insert_uniq x r
+  end.
+Definition sort_uniq (l : list Z) : list Z := fold_right insert_uniq [] l.
+
+Definition in_range (lo hi : Z) (l : list Z) : bool := forallb (fun x => (lo <=? x) && (x <=? hi)) l.
+
+Definition olist (o : option (list Z)) : list Z := match o with Some l => l | None => [] end.
+
+Definition is_none {A} (o : option A) : bool := match o with None => true | Some _ => false end.
+
+Definition normalize (r : rrule_args) : option rule :=
+  match d_tz (r_dtstart r), r_interval r, r_wkst r with
+  | Some tz, SInt iv, Some (WD wk None) =>
+    let us := d_us (r_dtstart r) in
+    let sec := us / 1000000 in
+    let d0 := d_days (r_dtstart r) in
+    let '(y0, m0, dd0) := civil_from_days d0 in
+    let freq := r_freq r in
+    let none_given := is_none (r_byweekno r) && is_none (r_byyearday r) && is_none (r_bymonthday r)
+                      && is_none (r_byweekday r) && is_none (r_byeaster r) in
+    let bymonth := if none_given && (freq =? 0) && is_none (r_bymonth r) then [m0] else olist (r_bymonth r) in
+    let bymonthday := if none_given && ((freq =? 0) || (freq =? 1)) then [dd0] else olist (r_bymonthday r) in
+    let wds := match r_byweekday r with
+               | Some l => l
+               | None => if none_given && (freq =? 2) then [WD (weekday d0) None] else []
+               end in
+    let plain := flat_map (fun w => match w with
+                                    | WD d None => [d]
+                                    | WD d (Some n) => if (n =? 0) || (1 <? freq) then [d] else []
+                                    end) wds in
+    let nth := flat_map (fun w => match w with
+                                  | WD d (Some n) => if (n =? 0) || (1 <? freq) then [] else [(d, n)]
+                                  | _ => []
+                                  end) wds in
+    let hs := match r_byhour r with Some l => l | None => [sec / 3600] end in
+    let ms := match r_byminute r with Some l => l | None => [(sec / 60) mod 60] end in
+    let ss := match r_bysecond r with Some l => l | None => [sec mod 60] end in
+    let times := sort_uniq (flat_map (fun h => flat_map (fun m => map (fun s => h * 3600 + m * 60 + s) ss) ms) hs) in
+    let count := match r_count r with SNone => Some None | SInt c => Some (Some c) | _ => None end in
+    let until := match r_until r with
+                 | None => Some None
+                 | Some u => match d_tz u with
+                             | Some _ => Some (Some (inst_us u + tz * 1000000))
+                             | None => None
+                             end
+                 end in
+    match count, until with
+    | Some cnt, Some unt =>
+      if (0 <=? freq) && (freq <=? 3) && (1 <=? iv) && (0 <=? wk) && (wk <=? 6)
+         && (0 <=? us) && (us <? US_DAY) && (1 <=? d0)
+         && is_none (r_bysetpos r) && is_none (r_byeaster r) && is_none (r_byweekno r)
+         && in_range 0 23 hs && in_range 0 59 ms && in_range 0 59 ss
+      then Some (mkRule freq d0 y0 m0 (d0 * US_DAY + sec * 1000000) iv cnt unt wk bymonth
+                        (filter (fun x => 0 <? x) bymonthday) (filter (fun x => x <? 0) bymonthday)
+                        (olist (r_byyearday r)) plain nth times)
+      else None
+    | _, _ => None
+    end
+  | _, _, _ => None
+  end.
+
+Definition rr_occ (F : nat) (H : Z) (r : rrule_args) : option (list Z * bool) :=
+  match normalize r with
+  | Some q => gen q H F DAY_BUDGET 0 (q_count q)
+  | None => None
+  end.
+
+(* ---- rule sets (dateutil.rrule.rruleset._iter): the union of the rrule / rdate parts, in order and
+   without duplicates, minus whatever an exrule / exdate part yields.  All parts in the zone tz. *)
+Definition is_incl (m : method) : bool := match m with MRRule | MRDate => true | _ => false end.
+
+Definition union_all (parts : list (list Z * bool)) : list Z :=
+  fold_right (fun p acc => fold_right insert_uniq acc (fst p)) [] parts.
+
+Fixpoint lastz (d : Z) (l : list Z) : Z := match l with [] => d | x :: r => lastz x r end.
+
+(* parts H true = what the rrule / rdate parts yield, parts H false = what the exrule / exdate parts
+   yield; each is (stamps, complete?) and is exact for the days before the horizon it was asked for *)
+Definition combine (H : Z) (parts : Z -> bool -> option (list (list Z * bool))) : option (list Z * bool) :=
+  match parts H true with
+  | None => None
+  | Some incs =>
+    let complete := forallb snd incs in
+    let r0 := union_all incs in
+    let r1 := if complete then r0 else filter (fun s => s <? H * US_DAY) r0 in
+    (* the exclusions must be known up to the last included value *)
+    let H' := if complete then Z.max H (lastz 0 r1 / US_DAY + 1) else H in
+    match parts H' false with
+    | None => None
+    | Some excs =>
+      let ex := union_all excs in
+      Some (filter (fun s => negb (memz s ex)) r1, complete)
+    end
+  end.
+
+Definition call_method (c : call) : method := match c with CRule m _ | CSet m _ | CDate m _ => m end.
+
+Fixpoint rs_occ (F : nat) (H : Z) (tz : Z) (rs : ruleset) {struct rs} : option (list Z * bool) :=
+  match rs with
+  | RS _ calls =>
+    combine H (fun H want_incl =>
+      (fix go (l : list call) : option (list (list Z * bool)) :=
+         match l with
+         | [] => Some []
+         | c :: r =>
+           if Bool.eqb (is_incl (call_method c)) want_incl
+           then match (match c with
+                       | CRule _ x => if option_eqb Z.eqb (d_tz (r_dtstart x)) (Some tz) then rr_occ F H x else None
+                       | CSet _ s => rs_occ F H tz s
+                       | CDate _ d => if option_eqb Z.eqb (d_tz d) (Some tz) && (0 <=? d_us d) && (d_us d <? US_DAY)
+                                      then Some ([d_days d * US_DAY + d_us d], true) else None
+                       end), go r with
+                | Some p, Some ps => Some (p :: ps)
+                | _, _ => None
+                end
+           else go r
+         end) calls)
+  end.
+
+Definition dt_of_stamp (tz s : Z) : dt := mkDT (s / US_DAY) (s mod US_DAY) (Some tz).
+
+(* is every part of the rule set inside the fragment, in the zone tz?  (asked before anything is computed) *)
+Fixpoint in_fragment (tz : Z) (rs : ruleset) {struct rs} : bool :=
+  match rs with
+  | RS _ calls =>
+    (fix go (l : list call) : bool :=
+       match l with
+       | [] => true
+       | c :: r =>
+         (match c with
+          | CRule _ x => option_eqb Z.eqb (d_tz (r_dtstart x)) (Some tz) && negb (is_none (normalize x))
+          | CSet _ s => in_fragment tz s
+          | CDate _ d => option_eqb Z.eqb (d_tz d) (Some tz)
+          end) && go r
+       end) calls
+  end.
+
+Definition ENGINE_FUEL : nat := Z.to_nat 20000.
+
+Definition top_tz (rs : ruleset) : option Z :=
+  match rs with
+  | RS _ (CRule MRRule r :: _) => d_tz (r_dtstart r)
+  | _ => None
+  end.
+
+Fixpoint max_day (d : Z) (l : list dt) : Z :=
+  match l with [] => d | x :: r => max_day (Z.max d (d_days x + 1)) r end.
+
+(* does the engine model agree with what the real engine yielded for the rule set rs?
+   stream = the values it yielded, in order, as far as it was asked; finished = it was asked until it
+   stopped.  Outside the fragment / out of fuel: nothing to compare (true).  (A rule without count and
+   until whose filters are never satisfied makes dateutil stop at year 9999: the model, exact up to
+   the horizon only, then has nothing to say about the end.) *)
+Definition engine_ok (rs : ruleset) (stream : list dt) (finished : bool) : bool :=
+  match top_tz rs with
+  | None => true
+  | Some tz =>
+    match (if in_fragment tz rs then rs_occ ENGINE_FUEL (max_day 0 stream) tz rs else None) with
+    | None => true
+    | Some (l, complete) =>
+      list_eqb dt_eqb stream (map (dt_of_stamp tz) (firstn (List.length stream) l))
+      && (if finished && complete then (List.length l =? List.length stream)%nat else true)
+    end
+  end.
+
 (* ------------------------------------------------------------------ correspondence cases *)
 
 Inductive expected :=
@@ -621,17 +991,41 @@ Inductive expected :=
 | XErrAny                                  (* recipe run failed with a DataGenError *)
 | XEngine.                                 (* the ENGINE raised (its own validation): outside the model *)
 
+(* eng: None = the engine was replaced by a stand-in (only the wiring is observed); Some finished =
+   the real engine produced [stream]; finished = it was asked until it stopped *)
+Inductive ecase :=
+| ECase (via_event memo : bool) (ptab : list (string * result dt)) (now : dt)
+        (kw : list (string * expr)) (m : mode) (stream : list dt) (eng : option bool) (exp : expected).
+
+(* CSession: a history - several schedules evaluated one after the other in one process (several
+   objects of a recipe, several generate_data runs, direct calls).  The model has no state: every
+   schedule is judged on its own keywords. *)
 Inductive case :=
 | CEvent (via_event memo : bool) (ptab : list (string * result dt)) (now : dt)
-         (kw : list (string * expr)) (m : mode) (stream : list dt) (exp : expected).
+         (kw : list (string * expr)) (m : mode) (stream : list dt) (eng : option bool) (exp : expected)
+| CSession (l : list ecase).
 
 Definition table_parser (ptab : list (string * result dt)) : parser :=
   fun s => match assoc s ptab with Some r => r | None => Err BadOracle end.
 
-Definition check_case (c : case) : bool :=
+(* the rule set the model builds for the keywords (whatever happens to the rows afterwards) *)
+Definition built_ruleset (via memo : bool) (P : parser) (now : dt) (kw : list (string * expr)) : result ruleset :=
+  do kw' <- eval_kw via memo P now kw;
+  do rp <- call_event via memo P now kw';
+  Ok (fst rp).
+
+Definition engine_agrees (via memo : bool) (P : parser) (now : dt) (kw : list (string * expr))
+           (stream : list dt) (eng : option bool) : bool :=
+  match eng, built_ruleset via memo P now kw with
+  | Some finished, Ok rs => engine_ok rs stream finished
+  | _, _ => true
+  end.
+
+Definition check_ecase (c : ecase) : bool :=
   match c with
-  | CEvent via memo ptab now kw m stream exp =>
+  | ECase via memo ptab now kw m stream eng exp =>
     let out := run via memo (table_parser ptab) now kw m stream in
+    engine_agrees via memo (table_parser ptab) now kw stream eng &&
     match exp, out with
     | XOk rs vals, Ok (rs', vals') => ruleset_eqb rs rs' && list_eqb value_eqb vals vals'
     | XErr e, Err e' => err_eqb e e'
@@ -640,4 +1034,30 @@ Definition check_case (c : case) : bool :=
     | XEngine, _ => true
     | _, _ => false
     end
+  end.
+
+Definition check_case (c : case) : bool :=
+  match c with
+  | CEvent via memo ptab now kw m stream eng exp => check_ecase (ECase via memo ptab now kw m stream eng exp)
+  | CSession l => forallb check_ecase l
+  end.
+
+(* evidence: was the recurrence-engine model compared with the real engine for this case? *)
+Definition engine_compared_e (c : ecase) : bool :=
+  match c with
+  | ECase via memo ptab now kw m stream eng exp =>
+    match eng, built_ruleset via memo (table_parser ptab) now kw with
+    | Some _, Ok rs =>
+      match top_tz rs with
+      | Some tz => in_fragment tz rs && negb (is_none (rs_occ ENGINE_FUEL (max_day 0 stream) tz rs))
+      | None => false
+      end
+    | _, _ => false
+    end
+  end.
+
+Definition engine_not_compared (c : case) : bool :=
+  match c with
+  | CEvent via memo ptab now kw m stream eng exp => negb (engine_compared_e (ECase via memo ptab now kw m stream eng exp))
+  | CSession l => negb (existsb engine_compared_e l)
   end.
